@@ -3,8 +3,10 @@ package shimagent
 //vsym:pkg github.com/theparanoids/ysshra/agent/shimagent
 //vsym:include shim/world.go
 //vsym:entry H07_shim
+//vsym:entry H07_upstream3
 //vsym:replay none
 //vsym:expect-cover C07.listed-valid C07.purged-expired-upstream C07.purged-expired-memory C07.orphan-dropped C07.empty-list-keeps C07.upstream-fault
+//vsym:bound H07_upstream3: no in-memory certificate, exactly three upstream identities (two certificates and a third certificate or plain key), symbolic windows and clock, both modes, List / Signers / Sign
 //vsym:bound H07_shim: pre-state under the representation invariant with 0..1 (thorough 0..2) in-memory certificates and 0..2 (thorough 0..3) upstream identities (plain key of 2 possible keys, a certificate over either key, or the in-memory certificate itself also held upstream); every validity window and the clock symbolic; both modes; every map iteration order; the first (thorough: one of the first three) upstream call may fail; one operation from List / Signers / Sign
 
 import (
@@ -23,17 +25,32 @@ func h07MustAccept(c *ssh.Certificate) bool {
 }
 
 func H07_shim() {
-	vMapOrderAll()
 	maxMem, maxUp := 1, 2
 	if vThorough() {
 		maxMem, maxUp = 2, 3
 	}
+	h07Scenario(maxMem, maxUp, -1)
+}
+
+// H07_upstream3: exactly three upstream identities and nothing in memory, so
+// that the swap-remove over the cached listing is exercised with several
+// removals in one pass.
+func H07_upstream3() {
+	h07Scenario(0, 3, 3)
+}
+
+func h07Scenario(maxMem, maxUp, exactUp int) {
+	vMapOrderAll()
 	mwClock = vNondetI64("now")
 	vAssume(vAnd(mwClock >= 0, mwClock < 1<<62))
 	up := &mwUpstream{failAt: -1}
 	s := mwNewServer(up, vChoose(2, "no-upstream-mode") == 1)
 
 	newCert := func(name string) *ssh.Certificate {
+		if exactUp >= 0 {
+			// the key and the KeyID flavour do not matter to the purge
+			return mwNewCert(1, vNondetU64(name+"-valid-after"), vNondetU64(name+"-valid-before"), false)
+		}
 		return mwNewCert(1+vChoose(2, name+"-key"), vNondetU64(name+"-valid-after"), vNondetU64(name+"-valid-before"), vChoose(2, name+"-decodes") == 1)
 	}
 	var mem []*ssh.Certificate
@@ -44,9 +61,15 @@ func H07_shim() {
 		mwPutMem(s, c)
 	}
 	var upCerts []*ssh.Certificate
-	nu := vChoose(maxUp+1, "upstream")
+	nu := exactUp
+	if exactUp < 0 {
+		nu = vChoose(maxUp+1, "upstream")
+	}
 	for i := 0; i < nu; i++ {
-		kind := vChoose(3+nm, "upstream-kind")
+		kind := 2
+		if exactUp < 0 || i == nu-1 {
+			kind = vChoose(3+nm, "upstream-kind")
+		}
 		switch {
 		case kind < 2: // plain key 1 or 2
 			blob := []byte{'k', byte(kind + 1)}
@@ -70,6 +93,9 @@ func H07_shim() {
 	nFault := 2
 	if vThorough() {
 		nFault = 4
+	}
+	if exactUp >= 0 {
+		nFault = 1
 	}
 	up.failAt = vChoose(nFault, "upstream-fault-at") - 1
 
